@@ -440,6 +440,7 @@ fn exp_decode_params() {
 
 #[cfg(kani)]
 #[kani::proof]
+#[kani::stub(unty::type_equal, crate::csvstub::stub_type_equal)]
 fn exp_decode_lexicon() {
     let mut r = ByteReader::new(&gen::IMG_MATRIX[21..], gen::IMG_MATRIX.len() - 21);
     let v: Result<Lexicon, _> = bincode::decode_from_std_read(&mut r, vibrato::common::bincode_config());
@@ -464,4 +465,259 @@ fn exp_decode_lexicon_slice() {
         }
         Err(_) => assert!(false),
     }
+}
+
+#[cfg(kani)]
+fn per_call(tag: &str) {}
+
+#[cfg(kani)]
+#[kani::proof]
+#[kani::stub(unty::type_equal, crate::csvstub::stub_type_equal)]
+fn exp_dec_e1() {
+    // (Vec<u32> [7,8], Vec<u16> [1,2,3])
+    let bytes: [u8; 31] = [2,0,0,0,0,0,0,0, 7,0,0,0, 8,0,0,0, 3,0,0,0,0,0,0,0, 1,0, 2,0, 3,0, 0];
+    let mut r = ByteReader::new(&bytes, 30);
+    let v: Result<(Vec<u32>, Vec<u16>), _> = bincode::decode_from_std_read(&mut r, vibrato::common::bincode_config());
+    match v {
+        Ok(v) => { assert!(v.0.len() == 2 && v.1.len() == 3 && v.1[2] == 3); core::mem::forget(v); }
+        Err(_) => assert!(false),
+    }
+}
+
+#[cfg(kani)]
+#[kani::proof]
+fn exp_dec_e2() {
+    // (Vec<u8> [9,9,9], Vec<u16> [1,2])
+    let bytes: [u8; 24] = [3,0,0,0,0,0,0,0, 9,9,9, 2,0,0,0,0,0,0,0, 1,0, 2,0, 0];
+    let mut r = ByteReader::new(&bytes, 23);
+    let v: Result<(Vec<u8>, Vec<u16>), _> = bincode::decode_from_std_read(&mut r, vibrato::common::bincode_config());
+    match v {
+        Ok(v) => { assert!(v.0.len() == 3 && v.1.len() == 2 && v.1[1] == 2); core::mem::forget(v); }
+        Err(_) => assert!(false),
+    }
+}
+
+#[cfg(kani)]
+#[kani::proof]
+fn exp_dec_e3() {
+    // (Vec<u32> [7,8], Vec<WordParam> 2)
+    let bytes: [u8; 37] = [2,0,0,0,0,0,0,0, 7,0,0,0, 8,0,0,0, 2,0,0,0,0,0,0,0, 1,0,1,0,10,0, 1,0,0,0,249,255, 0];
+    let mut r = ByteReader::new(&bytes, 36);
+    let v: Result<(Vec<u32>, Vec<WordParam>), _> = bincode::decode_from_std_read(&mut r, vibrato::common::bincode_config());
+    match v {
+        Ok(v) => { assert!(v.0.len() == 2 && v.1.len() == 2 && v.1[1].word_cost == -7); core::mem::forget(v); }
+        Err(_) => assert!(false),
+    }
+}
+
+#[cfg(kani)]
+#[kani::proof]
+fn exp_dec_e4() {
+    let bytes: [u8; 21] = [2,0,0,0,0,0,0,0, 7,0,0,0, 8,0,0,0, 1,0, 2,0, 0];
+    let mut r = ByteReader::new(&bytes, 20);
+    let v: Result<(Vec<u32>, u16, u16), _> = bincode::decode_from_std_read(&mut r, vibrato::common::bincode_config());
+    match v {
+        Ok(v) => { assert!(v.0.len() == 2 && v.1 == 1 && v.2 == 2); core::mem::forget(v); }
+        Err(_) => assert!(false),
+    }
+}
+
+#[cfg(kani)]
+#[kani::proof]
+fn exp_dec_e7() {
+    // (Vec<u32> [], Vec<u16> [1,2,3])
+    let bytes: [u8; 23] = [0,0,0,0,0,0,0,0, 3,0,0,0,0,0,0,0, 1,0, 2,0, 3,0, 0];
+    let mut r = ByteReader::new(&bytes, 22);
+    let v: Result<(Vec<u32>, Vec<u16>), _> = bincode::decode_from_std_read(&mut r, vibrato::common::bincode_config());
+    match v {
+        Ok(v) => { assert!(v.0.len() == 0 && v.1.len() == 3 && v.1[2] == 3); core::mem::forget(v); }
+        Err(_) => assert!(false),
+    }
+}
+
+#[cfg(kani)]
+#[kani::proof]
+fn exp_dec_e8() {
+    // (Vec<u32> [7], Vec<u16> [1,2,3])  -- a single element
+    let bytes: [u8; 27] = [1,0,0,0,0,0,0,0, 7,0,0,0, 3,0,0,0,0,0,0,0, 1,0, 2,0, 3,0, 0];
+    let mut r = ByteReader::new(&bytes, 26);
+    let v: Result<(Vec<u32>, Vec<u16>), _> = bincode::decode_from_std_read(&mut r, vibrato::common::bincode_config());
+    match v {
+        Ok(v) => { assert!(v.0.len() == 1 && v.1.len() == 3 && v.1[2] == 3); core::mem::forget(v); }
+        Err(_) => assert!(false),
+    }
+}
+
+#[cfg(kani)]
+fn burn(n: usize) -> usize {
+    let mut c = 0;
+    let mut i = 0;
+    while i < n {
+        c += 1;
+        i += 1;
+    }
+    c
+}
+
+#[cfg(kani)]
+#[kani::proof]
+fn exp_dec_e9() {
+    let bytes: [u8; 21] = [1,0,0,0,0,0,0,0, 7,0,0,0, 1,0, 2,0, 3,0, 0, 0, 0];
+    let mut r = ByteReader::new(&bytes, 20);
+    let cfg = vibrato::common::bincode_config();
+    let a: Result<Vec<u32>, _> = bincode::decode_from_std_read(&mut r, cfg);
+    let c1 = burn(r.pos);
+    let b: Result<u16, _> = bincode::decode_from_std_read(&mut r, cfg);
+    let c2 = burn(r.pos);
+    let c: Result<u16, _> = bincode::decode_from_std_read(&mut r, cfg);
+    let c3 = burn(r.pos);
+    assert!(c1 == 12 && c2 == 14 && c3 == 16);
+    core::mem::forget(a);
+    core::mem::forget(b);
+    core::mem::forget(c);
+}
+
+#[cfg(kani)]
+fn read_u32(r: &mut ByteReader) -> Result<u32, bincode::error::DecodeError> {
+    bincode::decode_from_std_read(r, vibrato::common::bincode_config())
+}
+
+#[cfg(kani)]
+fn loop_plain(r: &mut ByteReader, len: usize) -> Result<u32, bincode::error::DecodeError> {
+    let mut s = 0;
+    for _ in 0..len {
+        s += read_u32(r)?;
+    }
+    Ok(s)
+}
+
+#[cfg(kani)]
+fn loop_vec(r: &mut ByteReader, len: usize) -> Result<Vec<u32>, bincode::error::DecodeError> {
+    let mut v = Vec::with_capacity(len);
+    for _ in 0..len {
+        v.push(read_u32(r)?);
+    }
+    Ok(v)
+}
+
+#[cfg(kani)]
+#[kani::proof]
+fn exp_dec_f1() {
+    let bytes: [u8; 13] = [7,0,0,0, 8,0,0,0, 1,0, 2,0, 0];
+    let mut r = ByteReader::new(&bytes, 12);
+    let a = loop_plain(&mut r, 2);
+    let c1 = burn(r.pos);
+    assert!(c1 == 8);
+    core::mem::forget(a);
+}
+
+#[cfg(kani)]
+#[kani::proof]
+fn exp_dec_f2() {
+    let bytes: [u8; 13] = [7,0,0,0, 8,0,0,0, 1,0, 2,0, 0];
+    let mut r = ByteReader::new(&bytes, 12);
+    let a = loop_vec(&mut r, 2);
+    let c1 = burn(r.pos);
+    assert!(c1 == 8);
+    core::mem::forget(a);
+}
+
+#[cfg(kani)]
+#[kani::proof]
+fn exp_dec_f3() {
+    // no loop: two reads and `?`
+    let bytes: [u8; 13] = [7,0,0,0, 8,0,0,0, 1,0, 2,0, 0];
+    let mut r = ByteReader::new(&bytes, 12);
+    let a = read_u32(&mut r);
+    let b = read_u32(&mut r);
+    let c1 = burn(r.pos);
+    assert!(c1 == 8);
+    core::mem::forget(a);
+    core::mem::forget(b);
+}
+
+#[cfg(kani)]
+#[kani::proof]
+fn exp_err_fold() {
+    use std::io::Read;
+    let data = [1u8, 2, 3];
+    let mut r = CutReader::new(&data, 3);
+    let mut b = [0u8; 8];
+    let e = r.read_exact(&mut b);
+    let c = if e.is_err() { burn(3) } else { burn(20) };
+    assert!(c == 3);
+    core::mem::forget(e);
+}
+
+#[cfg(kani)]
+#[kani::proof]
+fn exp_err_fold2() {
+    // through bincode's IoReader and `?`
+    let data = [1u8, 2, 3];
+    let mut r = CutReader::new(&data, 3);
+    let v: Result<u64, _> = bincode::decode_from_std_read(&mut r, vibrato::common::bincode_config());
+    let c = if v.is_err() { burn(3) } else { burn(20) };
+    assert!(c == 3);
+    core::mem::forget(v);
+}
+
+#[cfg(kani)]
+#[kani::proof]
+fn exp_err_fold3() {
+    use std::io::Read;
+    let data = [1u8, 2, 3];
+    let mut r = CutReader::new(&data, 3);
+    let mut b = [0u8; 8];
+    let e = r.read_exact(&mut b).map_err(|inner| bincode::error::DecodeError::Io { inner, additional: 8 });
+    let c = if e.is_err() { burn(3) } else { burn(20) };
+    assert!(c == 3);
+    core::mem::forget(e);
+}
+
+#[cfg(kani)]
+fn q(r: &mut CutReader) -> Result<u64, bincode::error::DecodeError> {
+    use std::io::Read;
+    let mut b = [0u8; 8];
+    r.read_exact(&mut b).map_err(|inner| bincode::error::DecodeError::Io { inner, additional: 8 })?;
+    Ok(u64::from_le_bytes(b))
+}
+
+#[cfg(kani)]
+#[kani::proof]
+fn exp_err_fold4() {
+    let data = [1u8, 2, 3];
+    let mut r = CutReader::new(&data, 3);
+    let e = q(&mut r);
+    let c = if e.is_err() { burn(3) } else { burn(20) };
+    assert!(c == 3);
+    core::mem::forget(e);
+}
+
+#[cfg(kani)]
+#[kani::proof]
+fn exp_trie_ser() {
+    let lex = sym_lexicon(&gen::LEX_A_AB_TRIE, &gen::LEX_A_AB_POST, gen::LEX_A_AB_NWORDS, 2, 2, LexType::System);
+    let v = lex.verif_trie_bytes();
+    let c = burn(v[0] as usize);
+    let d = burn(v.len());
+    assert!(c == 3 && d == 88);
+    core::mem::forget(v);
+    core::mem::forget(lex);
+}
+
+#[cfg(kani)]
+#[kani::proof]
+fn exp_btree() {
+    let mut m = std::collections::BTreeMap::new();
+    m.insert(3u32, 10i32);
+    m.insert(1u32, 20i32);
+    let mut s = 0;
+    let mut n = 0;
+    for (k, v) in &m {
+        s += *v + *k as i32;
+        n += 1;
+    }
+    let c = burn(n);
+    assert!(s == 34 && c == 2);
+    core::mem::forget(m);
 }
